@@ -149,6 +149,11 @@ func (p *Parser) parseString(data string) error {
 	if inBackticks {
 		return errors.New("backticks left open")
 	}
+	if linebuffer.Len() > 0 {
+		// The input ended on a continuation line: what was collected so far is still a directive,
+		// it must not be dropped silently.
+		return p.evaluateLine(linebuffer.String())
+	}
 	return nil
 }
 
